@@ -5,7 +5,8 @@ pub mod runner;
 pub mod codec_case;
 pub mod inchunk;
 pub mod evo_case;
-pub mod raw_case;
+pub mod hostile_case;
+pub mod alloc;
 
 pub use model::{mv, ModelType, Opt};
 pub use inchunk::InChunk;
